@@ -72,7 +72,7 @@ impl GSpec {
                 AffTree::<2>::from_poly(polytope(rows), Aff::identity(d).to_real(), if *with_else { Some(&e) } else { None }).unwrap()
             }
             // storage layout by size: depth-first, breadth-first, re-used indices, column-major matrices
-            GSpec::User(t) => t.build_layout::<2>((t.n_nodes() % 4) as u8),
+            GSpec::User(t) => t.build_layout::<2>((t.n_nodes() % 5) as u8),
             GSpec::Eliminated(g) => {
                 let mut t = g.build(d);
                 t.infeasible_elimination();
@@ -164,7 +164,7 @@ impl Op {
             }
             Op::Reduce => t.reduce(),
             Op::Arith(c, o) => {
-                let b = o.build_layout::<2>((o.n_nodes() % 4) as u8);
+                let b = o.build_layout::<2>((o.n_nodes() % 5) as u8);
                 let a = std::mem::replace(t, AffTree::<2>::new(1));
                 *t = match c {
                     '+' => a + &b,
@@ -287,7 +287,7 @@ impl Init {
                 AffTree::<2>::from_poly(polytope(rows), t.to_real(), er.as_ref()).unwrap()
             }
             Init::Schema(g, d) => g.build(*d),
-            Init::Spec(t) => t.build_layout::<2>((t.n_nodes() % 4) as u8),
+            Init::Spec(t) => t.build_layout::<2>((t.n_nodes() % 5) as u8),
             Init::Seeded(i, pts) => {
                 let mut t = i.build();
                 t.tree.node_value_mut(0).unwrap().state =
